@@ -15,16 +15,16 @@ export CARGO_NET_OFFLINE=true VERIF_ROOT="$ROOT"
 cd "$ROOT/fuzz" || exit 2
 
 declare -A RUNS=(
-  [c01_pure]=400000 [c01_header]=400000 [c01_builder]=200000
-  [c02_bytes]=1500000 [c02_hdr]=500000 [c02_frames]=500000
-  [c07_paths]=150000 [c07_mounts]=300000
+  [c01_wire]=1000000
+  [c02_bytes]=1000000
+  [c07_mounts]=500000
   [c08_slices]=300000
-  [c11_flow]=300000 [c13_ring]=300000
-  [c14_registry]=200000
-  [c18_peers]=200000 [c18_reentrant]=200000
+  [c11_flow]=1000000 [c13_ring]=400000
+  [c14_registry]=60000
+  [c18_peers]=150000
 )
 low=$(echo "$ID" | tr 'A-Z' 'a-z')
-targets=$(ls fuzz_targets | sed 's/\.rs$//' | grep "^${low}_" || true)
+targets=$(for t in "${!RUNS[@]}"; do echo "$t"; done | grep "^${low}_" | sort || true)
 [ -n "$targets" ] || exit 0          # no coverage-guided twin for this property
 
 LOGDIR="$ROOT/fuzz/target/campaign/$ID"
@@ -54,6 +54,13 @@ r = random.Random(f"{t}:{seed}")
 for i, n in enumerate([16, 64, 64, 256, 256, 1024, 1024, 4096, 4096, 16384]):
     open(os.path.join(d, f"rand-{i:02d}"), "wb").write(bytes(r.getrandbits(8) for _ in range(n)))
 EOF
+    if [ "$t" = c01_wire ]; then
+        i=0
+        for f in /repo/interop/fixtures/*.repe /repo/tests/fixtures/*.repe; do
+            [ -f "$f" ] || continue
+            cp "$f" "$work/fx-$i"; i=$((i+1))
+        done
+    fi
     if [ "$t" = c02_bytes ]; then
         # real frames (Glaze interop fixtures and the regression corpus) behind each reader-mode byte
         i=0
@@ -64,14 +71,21 @@ EOF
         done
     fi
     stats="$LOGDIR/$t.stats"
-    ( cd "$LOGDIR" && VERIF_FUZZ_STATS="$stats.%p.json" "$BIN_DIR/$t" "$work" \
-        -artifact_prefix="$art" -runs="$n" -seed="$SEED" -max_len=16384 -len_control=0 \
-        -timeout=60 -rss_limit_mb=6144 -malloc_limit_mb=9000000000000 -print_final_stats=1 \
-        -jobs="$WORKERS" -workers="$WORKERS" > "$LOGDIR/$t.out" 2>&1 )
-    st=$?
-    cat "$LOGDIR"/fuzz-*.log > "$LOGDIR/$t.log" 2>/dev/null; rm -f "$LOGDIR"/fuzz-*.log
-    if grep -h "^VIOLATION property=" "$LOGDIR/$t.log" "$LOGDIR/$t.out" 2>/dev/null | sort -u | tee "$LOGDIR/$t.violations" | grep -q .; then
-        grep -h -A2 "^VIOLATION property=" "$LOGDIR/$t.log" | head -12
+    pids=""
+    for w in $(seq 0 $((WORKERS-1))); do
+        ( cd "$LOGDIR" && VERIF_FUZZ_TARGET="$t" VERIF_FUZZ_STATS="$stats.%p.json" exec "$BIN_DIR/harness" "$work" \
+            -artifact_prefix="$art" -runs="$n" -seed="$((SEED*1000+w))" -max_len=16384 -len_control=0 \
+            -timeout=60 -rss_limit_mb=6144 -malloc_limit_mb=9000000000000 -print_final_stats=1 \
+            > "$LOGDIR/$t.worker$w.log" 2>&1 ) &
+        pids="$pids $!"
+    done
+    st=0
+    for p in $pids; do wait "$p" || st=$?; done
+    cat "$LOGDIR/$t".worker*.log > "$LOGDIR/$t.log" 2>/dev/null; rm -f "$LOGDIR/$t".worker*.log; : > "$LOGDIR/$t.out"
+    grep -h "^VIOLATION property=" "$LOGDIR/$t.log" 2>/dev/null | sort -u > "$LOGDIR/$t.violations"
+    if [ -s "$LOGDIR/$t.violations" ]; then
+        cat "$LOGDIR/$t.violations"
+        grep -h -m1 -A2 "^VIOLATION property=" "$LOGDIR/$t.log" | tail -n +2
         rc=1
     elif [ $st -ne 0 ]; then
         # a crash without an oracle failure: sanitizer report, abort inside repe, timeout or OOM
